@@ -63,6 +63,9 @@ type dop struct {
 func (o dop) String() string {
 	switch o.K {
 	case "adv":
+		if o.P == 1 {
+			return "adv-no-tick(" + o.D.String() + ")"
+		}
 		return "adv(" + o.D.String() + ")"
 	case "learn":
 		return fmt.Sprintf("learn(%d)", o.P)
@@ -323,8 +326,23 @@ func (d *dhcpRun) history() {
 			if !a.IsValid() {
 				a = d.pickAddr(1, cl, cls, cl.captured)
 			}
-			req.Options = append(req.Options, refdec.DHCPOpt{Code: 54, Data: ip4b(nic.HostIP)}, refdec.DHCPOpt{Code: 50, Data: ip4b(a)})
-			cl.acked, cl.offered = netip.Addr{}, netip.Addr{}
+			req.Options = append(req.Options, refdec.DHCPOpt{Code: 54, Data: ip4b(nic.HostIP)})
+			switch o.P {
+			case 1: // a DECLINE that does not say which address: it names no binding and must end none
+				c.Obs("malformed_declines", 1)
+			case 2: // requested address option of the wrong length
+				req.Options = append(req.Options, refdec.DHCPOpt{Code: 50, Data: ip4b(a)[:3]})
+				c.Obs("malformed_declines", 1)
+			case 3: // declines an address that is somebody else's
+				if x := d.pickAddr(3, cl, cls, cl.captured); x.IsValid() {
+					a = x
+				}
+				req.Options = append(req.Options, refdec.DHCPOpt{Code: 50, Data: ip4b(a)})
+				c.Obs("malformed_declines", 1)
+			default:
+				req.Options = append(req.Options, refdec.DHCPOpt{Code: 50, Data: ip4b(a)})
+				cl.acked, cl.offered = netip.Addr{}, netip.Addr{}
+			}
 		case "release":
 			req = newMsg(refdec.DHCPRelease)
 			a := cl.acked
@@ -350,7 +368,11 @@ func (d *dhcpRun) history() {
 		case "adv":
 			time.Sleep(o.D)
 			synctest.Wait()
-			h.MinuteTicker(time.Now())
+			if o.P != 1 { // P == 1: time passes, the application's next MinuteTicker call has not come yet
+				h.MinuteTicker(time.Now())
+			} else {
+				c.Obs("time_passing_without_tick", 1)
+			}
 		case "restart":
 			// the server goes down and comes back from its lease file: handler only (P even) or the whole process, i.e. a new
 			// session with an empty host table and no capture flags (P odd). Offers are forgotten, acknowledged leases are not.
@@ -588,13 +610,13 @@ func randDop(r *rand.Rand) dop {
 	case k < 15:
 		return dop{K: "reboot", C: c, P: []int{0, 0, 1, 3, 5, 8}[r.Intn(6)]}
 	case k < 16:
-		return dop{K: "decline", C: c}
+		return dop{K: "decline", C: c, P: []int{0, 0, 0, 1, 2, 3}[r.Intn(6)]}
 	case k < 17:
 		return dop{K: "release", C: c}
 	case k < 19:
 		return dop{K: []string{"cap", "rel"}[r.Intn(2)], C: c}
 	case k < 21:
-		return dop{K: "adv", D: []time.Duration{5 * time.Second, time.Minute, 2*time.Hour + time.Minute, 4*time.Hour + time.Minute}[r.Intn(4)]}
+		return dop{K: "adv", P: []int{0, 0, 1}[r.Intn(3)], D: []time.Duration{5 * time.Second, time.Minute, 2*time.Hour + time.Minute, 4*time.Hour + time.Minute}[r.Intn(4)]}
 	case k < 22:
 		return dop{K: "foreign", C: c}
 	case k < 23:
